@@ -25,7 +25,7 @@ func init() {
 		Race:         true,
 		RaceAdvisory: true, // client-side races are judged by C20; here they are only counted
 		CaseTimeout:  200e9,
-		Rule: "two kinds of cases. (a) notification content / count, deterministic, direct mode: scenarios of C05's generator; after every request and server idleness the MQTT stand-in's publish log must have grown by exactly one message on <collection>/<key> carrying {CUID: pusher, DUID, sseq: new end of log} for every datatype of the request that stored >= 1 operation, and by none otherwise. (b) realtime: 2-5 REALTIME SDK clients over real grpc and real paho clients on the MQTT stand-in (deliveries delayed at random) subscribe, complete their first sync and then only issue local operations from their own goroutines at random moments, no Sync() call; after the last operation the harness waits for logical quiescence (no RPC in flight, no queued delivery, no announced background goroutine, no database command in progress, and no new RPC / publish event during a 2 s silence window) and then requires equal state on all clients and nothing left to push; a solo client must issue no pull-only RPC in reaction to its own notifications; the run is under the race detector; " +
+		Rule: "two kinds of cases. (a) notification content / count, deterministic, direct mode: scenarios of C05's generator; after every request and server idleness the MQTT stand-in's publish log must have grown by exactly one message on <collection>/<key> carrying {CUID: pusher, DUID, sseq: new end of log} for every datatype of the request that stored >= 1 operation, and by none otherwise. (b) realtime: 2-5 REALTIME SDK clients over real grpc and real paho clients on the MQTT stand-in (deliveries delayed at random; responses of served requests held back 0-5 ms so that notifications overtake them; a solo client loses 40 % of the responses to its pushes) subscribe, complete their first sync and then only issue local operations from their own goroutines at random moments, no Sync() call; after the last operation the harness waits for logical quiescence (no RPC in flight, no queued delivery, no announced background goroutine, no database command in progress, and no new RPC / publish event during a 2 s silence window) and then requires equal state on all clients and nothing left to push; no client may start a push-pull because of a notification that its own push caused (hook events dm.notification / dm.sync.on-notification joined on receiver and sseq; a solo client, all of whose notifications are its own, must also issue no more push-pull RPCs than its local operations started); the run is under the race detector; " +
 			"non-trivial = (a) >= 3 requests stored operations and >= 1 stored none; (b) >= 2 clients issued operations concurrently; distinct = hash of the script (a) / of the observed RPC order (b)",
 		Assumptions: []string{
 			"'converge by themselves' is decided as bounded progress to logical quiescence; not quiescent within 60 s => inconclusive",
@@ -239,14 +239,60 @@ func c18Realtime(c *core.Case) *core.Result {
 		cls = append(cls, x)
 	}
 	callsAfterEntry := len(rpc.Calls())
+	// schedule widening at the RPC boundary: a served request's response stays on the way for
+	// 0-5 ms (so notifications of later pushes overtake it); a solo client additionally loses
+	// 40 % of the responses to its pushes (its own notification then finds it behind)
+	{
+		var fmu sync.Mutex
+		fr := newRand(r.Int63())
+		var drop func(*model.PushPullMessage) bool
+		if solo {
+			drop = func(req *model.PushPullMessage) bool {
+				n := 0
+				for _, p := range req.PushPullPacks {
+					n += len(p.Operations)
+				}
+				fmu.Lock()
+				defer fmu.Unlock()
+				return n > 0 && fr.Intn(10) < 4
+			}
+		}
+		rpc.SetFaults(drop, func(*model.PushPullMessage) time.Duration {
+			fmu.Lock()
+			defer fmu.Unlock()
+			if fr.Intn(2) == 0 {
+				return 0
+			}
+			return time.Duration(fr.Intn(5000)) * time.Microsecond
+		})
+		defer rpc.SetFaults(nil, nil)
+	}
 	var deliverStarts, ownNotifications int64
+	// which client caused the notification (receiver, sseq) - and did the receiver start a sync
+	// because of it? A sync started by a notification the client caused itself is a violation.
+	var nmu sync.Mutex
+	ownAt := map[string]bool{} // receiver cuid + "/" + sseq -> caused by the receiver itself
+	reactedToOwn := ""
 	b.OnHook(func(point string, args ...interface{}) {
 		switch point {
 		case "dm.deliver.start":
 			atomic.AddInt64(&deliverStarts, 1)
 		case "dm.notification":
-			if len(args) >= 2 && args[0] == args[1] {
-				atomic.AddInt64(&ownNotifications, 1)
+			if len(args) >= 3 {
+				nmu.Lock()
+				ownAt[fmt.Sprintf("%v/%v", args[0], args[2])] = args[0] == args[1]
+				nmu.Unlock()
+				if args[0] == args[1] {
+					atomic.AddInt64(&ownNotifications, 1)
+				}
+			}
+		case "dm.sync.on-notification":
+			if len(args) >= 2 {
+				nmu.Lock()
+				if ownAt[fmt.Sprintf("%v/%v", args[0], args[1])] && reactedToOwn == "" {
+					reactedToOwn = fmt.Sprintf("client %v started a push-pull because of the notification for sseq %v, which its own push had caused", short(fmt.Sprint(args[0])), args[1])
+				}
+				nmu.Unlock()
 			}
 		}
 	})
@@ -303,6 +349,12 @@ func c18Realtime(c *core.Case) *core.Result {
 		if p := x.w.CreatePushPullPack(); len(p.Operations) > 0 {
 			return c.Violation("realtime-unpushed-operations", "the system is quiescent but client %s still holds %d operations that were never pushed", x.alias, len(p.Operations))
 		}
+	}
+	nmu.Lock()
+	reacted := reactedToOwn
+	nmu.Unlock()
+	if reacted != "" {
+		return c.Violation("sync-on-own-notification", "%s", reacted)
 	}
 	c.Count("realtime_runs_converged", 1)
 	c.Count("realtime_rpcs", int64(len(rpc.Calls())))
